@@ -147,6 +147,41 @@ func (w *zzC04World) scanSealed() {
 
 // scanOpensUnder: does any stored value (or length-prefixed field of one) of
 // the CURRENT database content open under key?
+// scanPublicBoxes: whatever the PUBLIC crypto key opens is readable with the
+// public passphrase alone (and stays in a watching-only database): none of it
+// may contain a secret.
+func (w *zzC04World) scanPublicBoxes() {
+	try := func(ct []byte) {
+		if len(ct) < snacl.NonceSize+snacl.Overhead {
+			return
+		}
+		pt, err := w.mgr.cryptoKeyPub.Decrypt(ct)
+		if err != nil {
+			return
+		}
+		for _, s := range w.secrets {
+			verifrt.Observe("secret", s.name)
+			verifrt.Assert(!zzContains(pt, s.b), "c04-secret-sealed-under-the-public-crypto-key")
+		}
+		verifrt.Observe("secret", "")
+	}
+	d := w.db.Dump()
+	for i := 1; i < len(d); i += 2 {
+		v := d[i]
+		try(v)
+		for off := 0; off+4 <= len(v); off++ {
+			if !verifrt.IsConcrete(v[off : off+4]) {
+				continue
+			}
+			n := int(uint32(v[off]) | uint32(v[off+1])<<8 | uint32(v[off+2])<<16 | uint32(v[off+3])<<24)
+			if n >= snacl.NonceSize+snacl.Overhead && off+4+n <= len(v) {
+				try(v[off+4 : off+4+n])
+			}
+		}
+	}
+	verifrt.Reach("public-boxes-scanned")
+}
+
 func (w *zzC04World) scanOpensUnder(key *snacl.CryptoKey, what string) {
 	where := ""
 	try := func(ct []byte) {
@@ -304,6 +339,7 @@ func ZzC04() {
 	}))
 	w.scan(false)
 	w.scanSealed()
+	w.scanPublicBoxes()
 	verifrt.Reach("imported")
 
 	// a new account: its extended private key is a secret too
